@@ -305,6 +305,10 @@ func checkC09(c *Check) {
 		return len(fn.Params) >= 3 && vField(vParam(fn, 2), "Header")(v)
 	})
 
+	// ---- R7 the shortcut never bypasses a constrained route
+	c.Rule("R7", "shared with C10 (R1, R2, R3)", "the shortcut table dispatches without consulting header matchers, so it must hold only leaves that Headers() visits and evicts, under their own route text and method", 6)
+	c.Share("C10", []string{"R1", "R2", "R3"}, 6)
+
 	// ---- R5 who may set a matcher
 	c.Rule("R5", "E5 who-may-call", "header matchers are written only through SetHeaderMatcher, which is called only from Route.Headers (and by its own propagation)", 1)
 	for fn, cs := range setCalls {
